@@ -60,9 +60,11 @@ func vNewTAWorld(name string) *vTAWorld {
 	w.size = vElemSize(kind)
 	off := vNondetInt(name + ".offset")
 	length := vNondetInt(name + ".length")
-	vAssume(off >= 0 && length >= 0 && off <= n && length <= n)
+	vAssume(off >= 0)
+	vAssume(length >= 0)
+	vAssume(off <= n)
+	vAssume(length <= n)
 	vAssume((off+length)*w.size <= n)
-	off, length = vConcretize(off), vConcretize(length)
 	switch kind {
 	case vkUint8:
 		w.ta = w.r.newUint8ArrayObject(w.buf, off, length, nil)
@@ -171,16 +173,29 @@ func H_C17_putIdx() {
 	out := vCatch(func() { w.ta._putIdx(idx, val) })
 	vAssert("put:no-throw", !out.panicked)
 	vAssert("put:coerced-once", *val.fired == 1)
-	inRange := idx >= 0 && idx < w.ta.length
+	raw := refRaw(w.kind, val.num)
+	lo := (w.ta.offset + idx) * w.size
+	written := idx >= 0 && idx < w.ta.length && !detaches
 	// the Go slab must be written only when the buffer is still attached and the index is valid
+	// the encoding of NaN is implementation-defined (ECMA-262 NumericToRawBytes): only "decodes to NaN" is required
+	f := val.num.ToFloat()
+	nanStore := (w.kind == vkFloat32 || w.kind == vkFloat64) && f != f
+	ok := true
 	for p := 0; p < w.n; p++ {
 		expect := w.before[p]
-		if inRange && !detaches {
-			lo := (w.ta.offset + idx) * w.size
-			if p >= lo && p < lo+w.size {
-				expect = byte(refRaw(w.kind, val.num) >> (8 * uint(p-lo)))
+		if written && p >= lo && p < lo+w.size {
+			expect = byte(raw >> (8 * uint(p-lo)))
+			if nanStore {
+				expect = w.orig[p]
 			}
 		}
-		vAssert("put:bytes==NumericToRawBytes", w.orig[p] == expect)
+		if w.orig[p] != expect {
+			ok = false
+		}
+	}
+	vAssert("put:bytes==NumericToRawBytes", ok)
+	if written && nanStore {
+		got := refValueOfRaw(w.kind, vRawAt(w.orig, lo, w.size))
+		vAssert("put:NaN-stored-as-NaN", got != got)
 	}
 }
